@@ -18,6 +18,13 @@ ENGINE_TEXT = {
  "C12": "C12_* on API histories (Submit/Start/Wait/Status/Plan on known and unknown ids), racing Starts, stale submissions; process death is observed by the driver",
 }
 SEQ = {
+ "C13": ("spec/Vault.tla", "TLC enumerates vault operation histories (Create/Update*/Read/Delete) with the expected reply after every step; Go replay on a fresh sqlite vault and a fresh cosmosdb fake vault compares every reply, Read structurally against a concrete reference plan built from value classes"),
+ "C14": ("spec/Vault.tla", "histories with failing/duplicate Creates and Deletes; after every step Read/Exists of every model id plus a row census of every sqlite table (cosmosdb: item census through the fake)"),
+ "C15": ("spec/Vault.tla", "Exists/Search/List over model stores of 0..4 plans, all filter combinations and limits; result streams compared with the model's ordered list and required to close; cosmosdb predicates the fake does not evaluate are decided on the generated query text"),
+ "C16": ("spec/Submit.tla", "TLC enumerates plans obtained from valid base plans by every single mutation, every coherent pair and seeded larger sets, with the expected Submit and Start verdicts computed in TLA+; Go replay checks verdicts, nothing stored on reject, fresh v7 ids / pristine state / stored definition on accept"),
+ "C17": ("spec/Secure.tla", "TLC enumerates request/response type shapes (struct/ptr/slice/map/interface/array nesting with secure tags) and computes which leaf must be scrubbed; Go builds the types with reflect, plants canaries, searches clone output and every rendered report file; registry verdict Refuses(shape)"),
+ "C18": ("spec/Clone.tla", "TLC enumerates (execution state x options x object kind) with the expected projection; Go clones real plans obtained by running them, compares field by field, mutates every reachable location to prove no aliasing, resubmits default clones"),
+ "C19": ("spec/Walk.tla", "TLC enumerates plan shapes (all subsets of the five groups at both levels, nil vs empty slices, 0-2 blocks/sequences/actions) with the reference walk order, chains and every stop position; Go replay compares pointer identity of every yielded item and chain, and early stops"),
  "C20": ("spec/Builder.tla", "TLC enumerates builder call histories (all sequences to depth 3/4, transition cover, random) with the expected observable result after every call; Go replay on the real builder compares step by step"),
 }
 checks = []
